@@ -53,6 +53,7 @@ type Oblig struct {
 	Second  string
 	ModelQF bool
 	scriptText string
+	qfText     string
 }
 
 type VC struct {
@@ -74,6 +75,7 @@ type VC struct {
 	failed  string // unsupported reason
 	ghostVars map[string]*Term
 	accessed  map[string]bool
+	noLoadFacts bool
 }
 
 func (vc *VC) fresh(prefix string, s *Sort) *Term {
@@ -84,7 +86,7 @@ func (vc *VC) fresh(prefix string, s *Sort) *Term {
 func (vc *VC) note(s string) { vc.notes[s] = true }
 
 func (vc *VC) assume(st *State, fact *Term) {
-	if isTrue(fact) {
+	if isTrue(fact) || vc.noLoadFacts {
 		return
 	}
 	vc.assumes = append(vc.assumes, mkImplies(st.reach, fact))
@@ -249,7 +251,7 @@ func (vc *VC) loadPtr(st *State, p *VPtr, t types.Type) Val {
 		return cur
 	}
 	_, sub := subPath(p.Root, p.Path)
-	return buildVal(t, "", func(l Leaf) *Term {
+	v := buildVal(t, "", func(l Leaf) *Term {
 		key, s := vc.leafKey(p, sub, l)
 		arr := vc.famGet(st, key, s)
 		var tm *Term
@@ -261,9 +263,12 @@ func (vc *VC) loadPtr(st *State, p *VPtr, t types.Type) Val {
 		case PGlobal:
 			tm = arr
 		}
-		vc.typeFact(st, tm, l)
 		return tm
 	})
+	if !vc.noLoadFacts {
+		vc.valFacts(st, t, v)
+	}
+	return v
 }
 
 // typeFact assumes range/allocatedness facts of a loaded leaf.
